@@ -776,3 +776,14 @@ def m_syntax_kind_from(ex, f, a):
     ref = ex.W.resolve('<SyntaxKind as From<MySyntaxKind>>::from', 'parser')
     if ref is not None: return ex.run_body(ref, [a[0]])
     return Agg('SyntaxKind', 0, [ex.disc(a[0])])
+
+# ----------------------------------------------------------------------------- floats (z3 floating-point theory)
+@pattern(r'^(core::)?f(32|64)::<impl f(32|64)>::(is_finite|is_nan|is_infinite|abs|is_sign_negative)$')
+def m_float_pred(ex, f, a):
+    op = f.rsplit('::', 1)[1]; v = a[0]
+    if isinstance(v, Opaque): raise Unsupported('float predicate on an opaque float')
+    if op == 'is_finite': return z3.Not(z3.Or(z3.fpIsInf(v), z3.fpIsNaN(v)))
+    if op == 'is_nan': return z3.fpIsNaN(v)
+    if op == 'is_infinite': return z3.fpIsInf(v)
+    if op == 'abs': return z3.fpAbs(v)
+    if op == 'is_sign_negative': return z3.fpIsNegative(v)
